@@ -281,8 +281,7 @@ fn multiset(v: &[String]) -> BTreeMap<String, usize> {
     m
 }
 
-pub fn run_case(case: &mut Case) {
-    let mut rng = case.rng(0);
+pub fn gen_spec(rng: &mut Rng) -> OptSpec {
     let mut spec = {
         let mut o = GenOpts::general();
         o.completers = true;
@@ -292,12 +291,94 @@ pub fn run_case(case: &mut Case) {
         o.max_named = 5;
         o.nonascii = true;
         let depth = o.cmd_depth;
-        let mut p = Pool::new(&mut rng, o);
+        let mut p = Pool::new(rng, o);
         p.level(depth)
     };
-    seed_texts(&mut spec.root, &mut rng);
+    seed_texts(&mut spec.root, rng);
+    spec
+}
+
+/// The static completion stubs printed for `--bpaf-complete-style-*` exit the process by design,
+/// so they are observed through a child process: exit status 0, nothing on stderr, the program
+/// name embedded, and (bash/zsh) accepted by `bash -n`.
+fn check_static_stubs(case: &mut Case, b: &Bench) {
+    use std::os::unix::process::CommandExt;
+    let exe = match std::env::current_exe() {
+        Ok(e) => e,
+        Err(_) => return,
+    };
+    for style in ["bash", "zsh", "fish", "elvish"] {
+        let mut cmd = std::process::Command::new(&exe);
+        cmd.arg0("my-app");
+        cmd.env_clear();
+        cmd.env(
+            crate::child::CHILD_ENV,
+            format!("{}:{}:{}:run", case.prop, case.seed, case.index),
+        );
+        cmd.arg(format!("--bpaf-complete-style-{}", style));
+        let out = match cmd.output() {
+            Ok(o) => o,
+            Err(_) => {
+                case.rep.inconclusive("stub-spawn-failed");
+                continue;
+            }
+        };
+        case.rep.count("static-stubs-checked");
+        let text = String::from_utf8_lossy(&out.stdout).to_string();
+        let mut problem = None;
+        if out.status.code() != Some(0) || !out.stderr.is_empty() {
+            problem = Some(format!(
+                "status {:?}, stderr {:?}",
+                out.status.code(),
+                clip(&String::from_utf8_lossy(&out.stderr))
+            ));
+        } else if !text.contains("my-app") || text.contains(crate::child::SENTINEL) {
+            problem = Some("stub does not name the program / program body was reached".into());
+        } else if style == "bash" || style == "zsh" {
+            let path = std::env::current_dir()
+                .unwrap_or_default()
+                .join(format!("stub-{}-{}.sh", std::process::id(), style));
+            if std::fs::write(&path, &text).is_ok() {
+                let st = std::process::Command::new("/usr/bin/bash")
+                    .arg("-n")
+                    .arg(&path)
+                    .env_clear()
+                    .output();
+                let _ = std::fs::remove_file(&path);
+                if let Ok(st) = st {
+                    if !st.status.success() {
+                        problem = Some(format!(
+                            "bash -n rejects the stub: {}",
+                            clip(&String::from_utf8_lossy(&st.stderr))
+                        ));
+                    }
+                }
+            }
+        }
+        if let Some(p) = problem {
+            case.rep.violation(
+                &format!("static-stub:{}", style),
+                "static-stub",
+                case.index,
+                J::obj()
+                    .set("definition", clip(&b.spec.pretty()))
+                    .set("style", style)
+                    .set("problem", p)
+                    .set("stub", clip(&text)),
+            );
+        }
+    }
+}
+
+pub fn run_case(case: &mut Case) {
+    let mut rng = case.rng(0);
+    let spec = gen_spec(&mut rng);
+    let mut rng = case.rng(1);
     let b = Bench::new(case, spec);
     let hidden = super::c02::hidden_items(&b.spec);
+    if case.index % 8 == 0 {
+        check_static_stubs(case, &b);
+    }
 
     // lines to complete
     let mut lines: Vec<Vec<Vec<u8>>> = Vec::new();
